@@ -169,6 +169,8 @@ fn floats() -> Vec<u64> {
         (-1.5f64).to_bits(),
         f64::NAN.to_bits(),
         0xFFF8_0000_0000_0001, // negative quiet NaN with payload
+        0x7FF0_0000_0000_0001, // signalling NaN
+        (-5e-324f64).to_bits(),
         f64::INFINITY.to_bits(),
         f64::NEG_INFINITY.to_bits(),
         5e-324f64.to_bits(),
@@ -346,6 +348,14 @@ fn run_query(s: &Scen, strat: u64, c: &C, lim: u64, off: u64, col: u64) -> Optio
                     Err(x) => Q::Err(x.to_string()),
                 }
             }
+            10 => match e.count_column("t", &col_name(col), cond) {
+                Ok(k) => Q::Count(k),
+                Err(x) => Q::Err(x.to_string()),
+            },
+            11 => match e.avg("t", &col_name(col), cond) {
+                Ok(v) => Q::Val(v.map(|f| V::Float(f.to_bits()))),
+                Err(x) => Q::Err(x.to_string()),
+            },
             _ => {
                 // streaming cursor
                 let rows: Result<Vec<Row>, String> = e.select_streaming("t", cond).map(|r| r.map_err(|x| x.to_string())).collect();
@@ -371,6 +381,24 @@ fn demanded(s: &Scen, strat: u64, c: &C, lim: u64, off: u64, col: u64) -> Q {
             Q::Rows(if lim > 0 { it.take(lim as usize).collect() } else { it.collect() })
         }
         4 => Q::Count(rows.len() as u64),
+        10 => Q::Count(rows.iter().filter(|(_, vs)| !matches!(vs.get(col as usize), Some(V::Null) | None)).count() as u64),
+        11 => {
+            let (mut t, mut k) = (0.0f64, 0u64);
+            for (_, vs) in &rows {
+                match vs.get(col as usize) {
+                    Some(V::Int(i)) => {
+                        t += *i as f64;
+                        k += 1;
+                    }
+                    Some(V::Float(b)) => {
+                        t += f64::from_bits(*b);
+                        k += 1;
+                    }
+                    _ => {}
+                }
+            }
+            Q::Val(if k == 0 { None } else { Some(V::Float((t / k as f64).to_bits())) })
+        }
         5 => {
             let mut t = 0.0f64;
             for (_, vs) in &rows {
@@ -485,8 +513,10 @@ fn do_index(s: &mut Scen, kind: u64, col: u64, dist: &mut Dist) {
     s.steps.push(format!("SIndex {kind} {col} {}", b(ok)));
     s.human.push(format!("{}({name})->{ok}", ["create_index", "create_btree_index", "drop_index", "drop_btree_index"][kind as usize]));
 }
-const STRAT_NAMES: [&str; 10] =
-    ["select", "select_with_limit", "select_columnar", "select_iter", "count", "sum", "min", "max", "text", "select_streaming"];
+const STRAT_NAMES: [&str; 12] = [
+    "select", "select_with_limit", "select_columnar", "select_iter", "count", "sum", "min", "max", "text", "select_streaming",
+    "count_column", "avg",
+];
 fn do_query(s: &mut Scen, strat: u64, c: &C, lim: u64, off: u64, col: u64, dist: &mut Dist, hits: &mut Hits) {
     let got = match run_query(s, strat, c, lim, off, col) {
         Some(g) => g,
@@ -505,8 +535,8 @@ fn do_query(s: &mut Scen, strat: u64, c: &C, lim: u64, off: u64, col: u64, dist:
             eprintln!("DIFF {} schema={:?} cond={:?} lim={lim} off={off} col={col}\n   table={:?}\n   got ={:?}\n   want={:?}", STRAT_NAMES[strat as usize], s.schema, c, s.cur, got, want);
         }
     }
-    if strat == 5 || strat == 9 {
-        // no model for float addition / the streaming cursor: implementation-only oracle
+    if strat == 5 || strat == 9 || strat == 11 {
+        // no model for float arithmetic / the streaming cursor: implementation-only oracle
         if !agree {
             hits.push(
                 &format!("{}-differs", STRAT_NAMES[strat as usize]),
@@ -521,7 +551,7 @@ fn do_query(s: &mut Scen, strat: u64, c: &C, lim: u64, off: u64, col: u64, dist:
 }
 fn all_strategies(s: &mut Scen, c: &C, r: &mut Rng, dist: &mut Dist, hits: &mut Hits) {
     let ncols = s.ncols() as u64;
-    for strat in 0..10u64 {
+    for strat in 0..12u64 {
         let lim = if strat == 3 { *r.pick(&[0u64, 0, 1, 2, 5]) } else { *r.pick(&[0u64, 1, 2, 3, 100]) };
         let off = *r.pick(&[0u64, 0, 1, 2, 5]);
         let col = r.below(ncols);
@@ -582,6 +612,58 @@ fn corpus(w: &mut CaseWriter, dist: &mut Dist, hits: &mut Hits, r: &mut Rng) {
         all_strategies(&mut s, &C::Cmp(2, 0, V::Int(5)), r, dist, hits);
         finish(&s, w, "corpus F-C04-null");
     }
+    // signed zeros under an ORDERED index: Ge(f, 0.0) must keep -0.0 rows, Le(f, -0.0) must keep +0.0 rows
+    for index_first in [false, true] {
+        let mut s = new_scen(vec![(1, true)]);
+        if index_first {
+            do_index(&mut s, 1, 0, dist);
+        }
+        for bits in [(-0.0f64).to_bits(), 0.0f64.to_bits(), 1.5f64.to_bits(), (-1.5f64).to_bits(), f64::NAN.to_bits()] {
+            do_insert(&mut s, vec![V::Float(bits)], dist);
+        }
+        if !index_first {
+            do_index(&mut s, 1, 0, dist);
+        }
+        for lit in [0.0f64.to_bits(), (-0.0f64).to_bits()] {
+            for op in 0..6u64 {
+                all_strategies(&mut s, &C::Cmp(op, 0, V::Float(lit)), r, dist, hits);
+            }
+        }
+        do_update(&mut s, &C::Cmp(5, 0, V::Float(0.0f64.to_bits())), vec![(0, V::Float((-0.0f64).to_bits()))], dist);
+        all_strategies(&mut s, &C::Cmp(5, 0, V::Float(0.0f64.to_bits())), r, dist, hits);
+        all_strategies(&mut s, &C::Cmp(3, 0, V::Float((-0.0f64).to_bits())), r, dist, hits);
+        finish(&s, w, "corpus signed zeros / ordered index");
+    }
+    // NaN under a HASH index: the bucket of Eq(f, NaN) is not empty, yet no row satisfies it
+    for index_first in [false, true] {
+        let mut s = new_scen(vec![(1, true), (0, true)]);
+        if index_first {
+            do_index(&mut s, 0, 0, dist);
+            do_index(&mut s, 0, 1, dist);
+        }
+        for (bits, k) in [(f64::NAN.to_bits(), 1i64), (f64::NAN.to_bits(), 2), (0xFFF8_0000_0000_0001u64, 3), (1.5f64.to_bits(), 1)] {
+            do_insert(&mut s, vec![V::Float(bits), V::Int(k)], dist);
+        }
+        do_insert(&mut s, vec![V::Null, V::Null], dist);
+        if !index_first {
+            do_index(&mut s, 0, 0, dist);
+            do_index(&mut s, 0, 1, dist);
+        }
+        for c in [
+            C::Cmp(0, 0, V::Float(f64::NAN.to_bits())),
+            C::Cmp(0, 0, V::Float(0xFFF8_0000_0000_0001)),
+            C::Cmp(1, 0, V::Float(f64::NAN.to_bits())),
+            C::Cmp(0, 0, V::Float(1.5f64.to_bits())),
+            C::Cmp(0, 0, V::Null),
+            C::Cmp(0, 1, V::Int(1)),
+            C::Cmp(0, 1, V::Null),
+            C::Cmp(0, 1, V::Float(1.0f64.to_bits())),
+            C::Cmp(0, 1, V::Bool(true)),
+        ] {
+            all_strategies(&mut s, &c, r, dist, hits);
+        }
+        finish(&s, w, "corpus NaN / hash index");
+    }
     // NULL by omission vs explicit NULL under a hash / ordered index
     {
         let mut s = new_scen(vec![(0, true), (0, true)]);
@@ -628,6 +710,80 @@ fn corpus(w: &mut CaseWriter, dist: &mut Dist, hits: &mut Hits, r: &mut Rng) {
     }
 }
 
+/// special values on indexed columns: a Float (or Int) column that carries BOTH index kinds (created
+/// before, in the middle of, or after the inserts), rows drawn almost only from the special values,
+/// and every comparison operator against every special literal under every strategy.
+fn special_scen(r: &mut Rng, w: &mut CaseWriter, dist: &mut Dist, hits: &mut Hits) {
+    let fl = floats();
+    let ty = if r.chance(4, 5) { 1u64 } else { 0 };
+    let nullable = r.chance(1, 2);
+    let schema = vec![(ty, nullable), (*r.pick(&[0u64, 1, 2, 3]), true)];
+    let mut s = new_scen(schema.clone());
+    let when = r.below(3); // 0: indexes first, 1: in the middle, 2: after the inserts
+    let kinds: Vec<u64> = match r.below(4) {
+        0 => vec![0],
+        1 => vec![1],
+        _ => vec![0, 1],
+    };
+    dist.hit(&format!("special.index_kinds.{}", kinds.len()));
+    let special = |r: &mut Rng| -> V {
+        if ty == 1 {
+            V::Float(*r.pick(&fl))
+        } else {
+            V::Int(*r.pick(&[0i64, -1, 1, i64::MIN, i64::MAX, 5]))
+        }
+    };
+    let nrows = r.range(5, 9);
+    for i in 0..nrows {
+        if (when == 0 && i == 0) || (when == 1 && i == nrows / 2) {
+            for k in &kinds {
+                do_index(&mut s, *k, 0, dist);
+            }
+        }
+        let v0 = if nullable && r.chance(1, 8) { V::Null } else { special(r) };
+        let v1 = if r.chance(1, 4) { V::Null } else { gen_val(r, schema[1].0) };
+        do_insert(&mut s, vec![v0, v1], dist);
+    }
+    if when == 2 {
+        for k in &kinds {
+            do_index(&mut s, *k, 0, dist);
+        }
+    }
+    // literals: both zeros and a NaN always, plus a few others
+    let mut lits: Vec<V> = if ty == 1 {
+        vec![V::Float(0.0f64.to_bits()), V::Float((-0.0f64).to_bits()), V::Float(f64::NAN.to_bits())]
+    } else {
+        vec![V::Int(0), V::Int(i64::MIN), V::Int(i64::MAX)]
+    };
+    for _ in 0..3 {
+        lits.push(special(r));
+    }
+    lits.push(V::Null);
+    for lit in &lits {
+        for op in 0..6u64 {
+            let c = C::Cmp(op, 0, lit.clone());
+            dist.hit("special.leaf");
+            all_strategies(&mut s, &c, r, dist, hits);
+        }
+    }
+    // DML driven by special-value conditions, then look again
+    let c = C::Cmp(r.below(6), 0, lits[r.below(3) as usize].clone());
+    if r.chance(1, 2) {
+        let nv = special(r);
+        do_update(&mut s, &c, vec![(0, nv)], dist);
+    } else {
+        do_delete(&mut s, &c, dist);
+    }
+    for lit in lits.iter().take(3) {
+        for op in [0u64, 3, 5] {
+            all_strategies(&mut s, &C::Cmp(op, 0, lit.clone()), r, dist, hits);
+        }
+    }
+    let c2 = C::And(Box::new(C::Cmp(5, 0, lits[0].clone())), Box::new(C::Cmp(3, 0, lits[1].clone())));
+    all_strategies(&mut s, &c2, r, dist, hits);
+    finish(&s, w, "special-values");
+}
+
 fn random_scen(r: &mut Rng, w: &mut CaseWriter, dist: &mut Dist, hits: &mut Hits, big: bool) {
     let ncols = r.range(1, 3) as usize;
     let schema: Vec<(u64, bool)> = (0..ncols)
@@ -664,7 +820,7 @@ fn random_scen(r: &mut Rng, w: &mut CaseWriter, dist: &mut Dist, hits: &mut Hits
         } else {
             let c = gen_cond(r, &schema, 2, dist);
             if big {
-                let strat = r.below(10);
+                let strat = r.below(12);
                 let lim = *r.pick(&[0u64, 1, 3, 70, 200]);
                 let off = *r.pick(&[0u64, 0, 1, 63, 65]);
                 if !(strat == 8 && c.has_true()) {
@@ -705,7 +861,11 @@ fn main() {
     let mut hits = Hits::default();
     let mut w = CaseWriter::new(&args.out, "scen");
     corpus(&mut w, &mut dist, &mut hits, &mut rng);
-    let nscen = args.budget(260, 12000);
+    let nspecial = args.budget(24, 1500);
+    for _ in 0..nspecial {
+        special_scen(&mut rng, &mut w, &mut dist, &mut hits);
+    }
+    let nscen = args.budget(220, 12000);
     for _ in 0..nscen {
         random_scen(&mut rng, &mut w, &mut dist, &mut hits, false);
     }
